@@ -732,8 +732,8 @@ def run_verlet_case(res, cfg):
         res.outcomes['degenerate_nonfinite'] += 1
         return
     ok = cmp(res, cfg, 'stored_matrix.QT', np.asarray(sweep.QT), QT, max(float(np.max(np.abs(QT))), 1.0), c=C_MAT)
-    ok &= cmp(res, cfg, 'stored_matrix.Qx', np.asarray(sweep.Qx), Qx, max(float(np.max(np.abs(Qx))), 1.0), c=C_MAT)
-    ok &= cmp(res, cfg, 'stored_matrix.QQ', np.asarray(sweep.QQ), QQ, O.q_compare_scale(nodes) * max(float(np.max(np.abs(QQ))), 1.0) * (10.0 if sympl else 1.0), c=C_Q)
+    ok = ok and cmp(res, cfg, 'stored_matrix.Qx', np.asarray(sweep.Qx), Qx, max(float(np.max(np.abs(Qx))), 1.0), c=C_MAT)
+    ok = ok and cmp(res, cfg, 'stored_matrix.QQ', np.asarray(sweep.QQ), QQ, O.q_compare_scale(nodes) * max(float(np.max(np.abs(QQ))), 1.0) * (10.0 if sympl else 1.0), c=C_Q)
     if not ok:
         return
     try:
